@@ -438,7 +438,7 @@ Section WithBuiltins.
         if str_eqb (ss_text prefix) s_xmlns then
           do uri <- parse_attr_value value;
           builder_prefix st (ss_text local) uri (from_prefix_name prefix local)
-        else if str_eqb (ss_text local) s_xmlns then
+        else if str_eqb (ss_text prefix) [] && str_eqb (ss_text local) s_xmlns then
           do uri <- parse_attr_value value;
           builder_prefix st [] uri (from_prefix_name prefix local)
         else builder_attribute st prefix local value
@@ -483,6 +483,11 @@ Section WithBuiltins.
           | None => BErr (PEXmlParser position)
           end
         else
+        (* PI ::= '<?' PITarget (S ...)? '?>': what follows the target is separated from it by white space (the tokenizer does
+           not insist) *)
+        if (match content with Some c => sp_start (ss_span c) =? sp_end (ss_span target) | None => false end) then
+          BErr (PEXmlParser (sp_end (ss_span target)))
+        else
         do (tid, t1) <- of_res (x_add_name_ns (b_tabs st) (ss_text target) nn);
         do (st1, n) <- add_node (with_tabs st t1) (VPI tid (match content with Some c => Some (ss_text c) | None => None end));
         let m1 := span_add (b_spans st1) (KPiTarget n) (ss_span target) in
@@ -498,6 +503,13 @@ Section WithBuiltins.
     match ts with
     | [] => BOk st
     | t :: ts' => do st1 <- bstep st t; brun st1 ts'
+    end.
+
+  (* the end of the stream: text that ends inside a start tag (the tokenizer of a fragment ends silently there) *)
+  Definition bfinish (st : bstate) : bres bstate :=
+    match b_eb st with
+    | Some eb => BErr (PEUnclosedTag (eb_span eb))
+    | None => BOk st
     end.
 
   (* the shape xmlparser gives its token stream: attributes and the end of a start tag occur only inside a start tag, and
@@ -556,7 +568,8 @@ Section WithBuiltins.
   (* Xot::parse_with_span_info; [srclen] = xml.len() in bytes, [bom]: the text starts with a byte order mark (which the
      tokenizer skips, so that the first token starts at 3) *)
   Definition parse_document_at (bom : bool) (t : tables) (next : N) (srclen : N) (ts : list ptoken) : bres parsed :=
-    do st <- brun (with_dstart (builder_new t next) (Some (if bom then 3 else 0))) ts;
+    do st0 <- brun (with_dstart (builder_new t next) (Some (if bom then 3 else 0))) ts;
+    do st <- bfinish st0;
     match b_stack st with
     | [doc] =>
         do els <- top_level_check st (Zipper.frev (on_kids doc)) [];
@@ -576,7 +589,8 @@ Section WithBuiltins.
 
   (* Xot::parse_fragment_with_span_info *)
   Definition parse_fragment (t : tables) (next : N) (ts : list ptoken) : bres parsed :=
-    do st <- brun (builder_new t next) ts;
+    do st0 <- brun (builder_new t next) ts;
+    do st <- bfinish st0;
     match b_stack st with
     | [doc] => BOk (finish st doc)
     | _ => unclosed st
